@@ -64,7 +64,7 @@ def run(ck, prog, ctx):
             ck.undecided("KIND", "K1/" + b.short, "no kind-labelled element", where=b.where())
         else:
             ck.ob("KIND", "K1/" + b.short, True, "%s stays within kind %s (%d labelled elements)" % (b.short, K, len(own)), where=b.where())
-    ck.floor("KIND", "single-kind bodies", n, 30)
+    ck.floor("KIND", "single-kind bodies", n, 20)
     for K, (stem, plural, rec) in sorted(KINDS.items()):
         for nm in ("annotate_" + stem, "add_" + stem):
             b = prog.body(B + nm)
